@@ -183,6 +183,35 @@ def main(argv):
             if v8 is None or v8.lower() != v3.lower():
                 failures.append(dict(obligation="two.Fortran2008#f2008_accepts_what_f2003_accepts",
                                      witness=dict(source=src), observed=dict(f2003=v3, f2008=v8)))
+        # rejection direction: Fortran 2008-only constructs are rejected by the f2003 parser and accepted by the f2008 parser
+        only08src = {
+            "submodule": "submodule (a) b\nend submodule b\n",
+            "codimension": "program p\ninteger, codimension[*] :: a\nend program p\n",
+            "coarray_decl": "program p\ninteger :: a[*]\nend program p\n",
+            "block": "program p\nblock\ninteger :: i\nend block\nend program p\n",
+            "critical": "program p\ncritical\nx = 1\nend critical\nend program p\n",
+            "do_concurrent": "program p\ndo concurrent (i = 1:3)\nx = i\nend do\nend program p\n",
+            "error_stop": "program p\nerror stop\nend program p\n",
+            "contiguous_decl": "program p\nreal, pointer, contiguous :: v(:)\nend program p\n",
+            "contiguous_component": "module m\ntype t\nreal, pointer, contiguous :: v(:)\nend type t\nend module m\n",
+            "allocate_mold": "program p\nallocate(a, mold=b)\nend program p\n",
+            "open_newunit": "program p\nopen(newunit=u, file='x')\nend program p\n",
+            "component_codimension": "module m\ntype t\ninteger, allocatable, codimension[:] :: c\nend type t\nend module m\n",
+            "procedure_stmt_colons": "module m\ninterface g\nmodule procedure :: f\nend interface g\nend module m\n",
+        }
+        for std in ("f2003", "f2008"):
+            parser = ParserFactory().create(std=std)
+            for name, src in only08src.items():
+                cases += 1
+                try:
+                    parser(FortranStringReader(src))
+                    ok = True
+                except (FparserException, SystemExit):
+                    ok = False
+                if std == "f2003" and ok:
+                    failures.append(dict(obligation="two.Fortran2003#rejects_f2008_only_construct", witness=dict(construct=name, source=src), observed="accepted by the f2003 parser"))
+                if std == "f2008" and not ok:
+                    failures.append(dict(obligation="two.Fortran2008#accepts_f2008_construct", witness=dict(construct=name, source=src), observed="rejected by the f2008 parser"))
         samples.append(dict(programs=len(a03), accepted_by_f2003=accepted,
                             rules_with_different_alternative_lists=sorted(divergent)))
         # intrinsic tables
